@@ -129,8 +129,74 @@ def check_project(ctx, fi):
     if found is not None:
         K, where, kind = found
         cached = [r for r in rets if 'self.marginals[' in U(r.value)]
+        pairwise = []
+        for r in list(cached):
+            pv = two_clique_answer(fi, r, attrs, defs)
+            if pv is not None:
+                cached.remove(r)
+                pairwise.append((r, pv))
+        for r, (okp, whyp) in pairwise:
+            ctx.ob('requested-order', fi, r, okp, 'a request spanning two cliques may be answered from their cached marginals as P(A) * P(B) / P(A n B) only '
+                   'when A and B are NEIGHBOURS in the junction tree (conditional independence given the separator): %s' % whyp,
+                   construct='two-clique answer from the cache')
         ok = bool(cached) and all(U(expand(r.value, defs, keep=(attrs, K))).startswith('self.marginals[%s]' % K) for r in cached)
     ctx.ob('requested-order', fi, where, ok, 'a cached clique marginal answers only requests it contains, keyed by that clique')
+
+
+def two_clique_answer(fi, r, attrs, defs):
+    """return (self.marginals[A] * (self.marginals[B] / self.marginals[B].project(S))).project(attrs)  ->  (ok, why) or None"""
+    from ..normalise import expand
+    v = r.value
+    if not (isinstance(v, ast.Call) and isinstance(v.func, ast.Attribute) and v.func.attr == 'project' and len(v.args) == 1 and U(v.args[0]) == attrs):
+        return None
+    prod = v.func.value
+    if not (isinstance(prod, ast.BinOp) and isinstance(prod.op, ast.Mult)):
+        return None
+    # enclosing loop over pairs of cliques and its guard
+    par = getattr(r, '_parent', None)
+    guard = loop = None
+    while par is not None:
+        if isinstance(par, ast.If) and guard is None:
+            guard = par
+        if isinstance(par, ast.For) and loop is None:
+            loop = par
+        par = getattr(par, '_parent', None)
+    if loop is None or guard is None or not (isinstance(loop.target, ast.Tuple) and len(loop.target.elts) == 2):
+        return None
+    A, B = [U(e) for e in loop.target.elts]
+    ldefs = {}
+    for st in loop.body:
+        if isinstance(st, ast.Assign) and len(st.targets) == 1 and isinstance(st.targets[0], ast.Name):
+            ldefs[st.targets[0].id] = st.value
+    for st in guard.body:
+        if isinstance(st, ast.Assign) and len(st.targets) == 1 and isinstance(st.targets[0], ast.Name):
+            ldefs[st.targets[0].id] = st.value
+
+    def ex(e):
+        class S(ast.NodeTransformer):
+            def visit_Name(self, n):
+                return ex(ldefs[n.id]) if n.id in ldefs and n.id not in (A, B, attrs) else n
+        from ..srcmodel import clone
+        return S().visit(clone(e))
+    t = U(ex(prod)).replace(' ', '')
+    sep = ('tuple(set(%s)&set(%s))' % (A, B), 'tuple(set(%s)&set(%s))' % (B, A), 'list(set(%s)&set(%s))' % (A, B))
+    forms = []
+    for X, Y in ((A, B), (B, A)):
+        for sp in sep:
+            forms.append('self.marginals[%s]*(self.marginals[%s]/self.marginals[%s].project(%s))' % (X, Y, Y, sp))
+    if t not in forms:
+        raise AnalysisError('GraphicalModel.project: two-clique answer `%s` is in no recognised form' % t[:100])
+    conj = guard.test.values if isinstance(guard.test, ast.BoolOp) and isinstance(guard.test.op, ast.And) else [guard.test]
+    texts = [U(ex(c)).replace(' ', '') for c in conj]
+    adjacent = any(x in ('%sinself.neighbors[%s]' % (B, A), '%sinself.neighbors[%s]' % (A, B)) for x in texts)
+    covers = any(x in ('set(%s)<=set(%s)|set(%s)' % (attrs, A, B), 'set(%s)<=set(%s)|set(%s)' % (attrs, B, A),
+                       'set(%s)<=set(%s).union(%s)' % (attrs, A, B)) for x in texts)
+    if not covers:
+        return False, 'the request is not tested to lie inside the two cliques'
+    if not adjacent:
+        return False, 'the guard `%s` does not require adjacency; two cliques that merely share an attribute (e.g. the ends of a chain of three) are not ' \
+                      'conditionally independent given their intersection, so the product is not the joint marginal' % U(guard.test)[:80]
+    return True, 'guarded by tree adjacency'
 
 
 def pruned_elimination(fi, attrs, defs, call):
